@@ -606,6 +606,69 @@ def rule_r7(prog, res) -> None:
     shared_rule(res, c09.rule_r2, "C09", "C09.R2", "C08.R7")
 
 
+def rule_r8(prog, res) -> None:
+    """what kind of content the tree cache holds is decided by the marker, not by looking at the content: the marker
+    is written in place (create, then write), so a crash can leave it empty, and its reader accepts an empty marker as
+    the valid state "no binning". As long as both are so, a consumer that dispatches on the *type* of the unpickled
+    content (isinstance of what was loaded) silently serves binned trees for an unbinned request after such a crash,
+    where dispatching on the marker state fails loudly. The rule first establishes the two premises on the current
+    source and only then judges the consumers."""
+    from .. import symx
+
+    ci, tmark, tcont = _tree_roles(prog)
+    # premise 1: the marker is written in place (not to a temporary file that is renamed)
+    in_place = False
+    for m in _methods(prog, ci):
+        _cfg, effs = _fs_nodes(prog, m, deep=False)
+        if any(leaf == tmark and (e.op == "write" or (e.op == "open" and e.mode and e.mode[0] in "wax")) for _n, e, leaf, _f in effs):
+            in_place = True
+        if any(leaf == tmark and e.op in ("rename", "replace") for _n, e, leaf, _f in effs):
+            in_place = False
+            break
+    # premise 2: the reader does not reject an empty marker (no raising test on what was read besides the exists-test)
+    init = ci.methods.get("__init__")
+    rejects_empty = False
+    if init is not None:
+        for p in symx.explore(prog, init, inline=symx.inline_private_helpers(prog)):
+            if p.outcome == "raise":
+                for t, _pol in p.literals():
+                    if any(isinstance(y, ast.Call) and (dotted(y.func) or "").split(".")[-1] in ("len", "read", "fromfile", "frombuffer") for y in ast.walk(t)) or ".size" in unparse(t):
+                        rejects_empty = True
+    if not in_place or rejects_empty:
+        res.ok("C08.R8", res.site(init or ci.methods[next(iter(ci.methods))], "premises"), "the marker cannot be left empty-but-valid (atomic publish or the reader rejects an empty marker): content-type dispatch is harmless", nontrivial=False)
+        return
+    # consumers: every method of the cache class that loads the content
+    n = 0
+    for m in _methods(prog, ci):
+        loads = any(isinstance(y, ast.Attribute) and y.attr in ("trees",) for y in walk_no_nested(m.node)) or any((dotted(c.func) or "").endswith("pickle.load") for c in calls_in(m))
+        if not loads or m.name in ("build", "__init__"):
+            continue
+        n += 1
+        res.touch(m)
+        bad = None
+        for x in walk_no_nested(m.node):
+            if isinstance(x, ast.Call) and isinstance(x.func, ast.Name) and x.func.id == "isinstance" and x.args:
+                a0 = x.args[0]
+                from .common import expand_locals
+
+                a0 = expand_locals(m.node, a0, set(m.param_names()))
+                if any(isinstance(y, ast.Attribute) and y.attr == "trees" for y in ast.walk(a0)) or any(isinstance(y, ast.Call) and (dotted(y.func) or "").endswith("load") for y in ast.walk(a0)):
+                    bad = x
+        if bad is not None:
+            res.violation(
+                "C08.R8",
+                m,
+                bad,
+                f"{ci.name}.{m.name} decides from the type of the unpickled '{tcont}' how to use it: the marker '{tmark}' is written in place and an empty marker reads as a valid \"no binning\" state, so after a crash "
+                "between creating and writing the marker binned trees are silently served for an unbinned request (dispatching on the marker state fails loudly instead)",
+                key_extra=f"content-type-dispatch-{m.name}",
+            )
+        else:
+            res.ok("C08.R8", res.site(m), "the use of the loaded trees is decided by the marker state")
+    if n == 0:
+        raise AnalysisError("C08.R8: no consumer of the cached trees found in the cache class")
+
+
 RULES = [
     ("C08.R1", rule_r1, QUICK),
     ("C08.R2", rule_r2, QUICK),
@@ -614,4 +677,5 @@ RULES = [
     ("C08.R5", rule_r5, QUICK),
     ("C08.R6", rule_r6, QUICK),
     ("C08.R7", rule_r7, QUICK),
+    ("C08.R8", rule_r8, QUICK),
 ]
